@@ -12,7 +12,7 @@
     C02/Model.v ([hstep], the one the implementation is compared with on every run). *)
 From HV Require Import Base.Prelude Radix.Spec Radix.SpecProofs Radix.Machine Radix.MachineProofs
   Radix.Load Radix.LoadProofs Radix.Tree Radix.TreeProofs Radix.TreeAddProofs
-  C06.TreeDel C06.TreeDelFacts C02.Model C02.Reach C02.HistTree.
+  C06.TreeDel C06.TreeDelFacts C02.Model C02.Proofs C02.Reach C02.HistTree.
 
 (** ** [hplan] is what [hstep] does *)
 Lemma hstep_plan (d : db rval) (kn : known) o :
@@ -317,4 +317,15 @@ Example delete_of_a_non_expression :
   parse_expr (rx_str "/a/*x/b") = None /\
   map fst (abs t) = [(lits (rx_str "/a/") ++ [C])%list] /\
   option_map (fun t' => abs t') (tree_delete (fun _ => true) t (rx_str "/a/*x/b")) = Some [].
+Proof. vm_compute. repeat split. Qed.
+
+(** finding C02-F3 on the compressed tree as it is now (the witness of C02/Proofs.v [F3_refuted],
+    which is stated on the machine-level history model): after the update the tree holds B before A
+    on  /x  and FindRule answers B, a fresh load of the rule set in force answers A *)
+Theorem F3_refuted_on_tree :
+  ts_ok (hist_tree F3_ops) = true /\
+  guard_F3 (hist_db F3_ops) (fresh_db F3_ops) (ex_str "/x") = true /\
+  proj_db (abs (ts_tree (hist_tree F3_ops))) = hist_db F3_ops /\
+  utree_find_rule (ts_tree (hist_tree F3_ops)) false (ex_str "/x") F3_any = ORule 2 /\
+  spec_find_rule (fresh_db F3_ops) false (ex_str "/x") F3_any = ORule 1.
 Proof. vm_compute. repeat split. Qed.
